@@ -5,6 +5,9 @@ let rec pos_of_int i = if i = 1 then XH else if i land 1 = 0 then XO (pos_of_int
 let n_of_int i = if i = 0 then N0 else Npos (pos_of_int i)
 let rec int_of_pos = function XH -> 1 | XO p -> 2 * int_of_pos p | XI p -> 2 * int_of_pos p + 1
 let int_of_n = function N0 -> 0 | Npos p -> int_of_pos p
+let z_of_int i = if i = 0 then Z0 else if i > 0 then Zpos (pos_of_int i) else Zneg (pos_of_int (-i))
+let int_of_z = function Z0 -> 0 | Zpos p -> int_of_pos p | Zneg p -> - (int_of_pos p)
+let rec nat_of_int i = if i <= 0 then O else S (nat_of_int (i - 1))
 
 let str_of_string b = List.map n_of_int (utf8_decode b)
 let string_of_str (s : n list) = utf8_encode (List.map int_of_n s)
@@ -32,4 +35,19 @@ let () =
     | ["ftab"; text] ->
         let (fs, tn) = function_table (str_of_field text) in
         print_endline ("funcs=[" ^ String.concat "," (List.map (fun (a, b) -> "(" ^ q a ^ "," ^ q b ^ ")") fs) ^ "] text=" ^ q tn)
+    | "shrun" :: main :: files ->
+        (* set -e / functions / source threaded through the shell state; files = path,text pairs *)
+        let tbl = pairs files in
+        let file_text p = try Some (List.assoc p tbl) with Not_found -> None in
+        let ext (line : n list) =
+          let ws = List.filter (fun x -> x <> "") (String.split_on_char ' ' (string_of_str line)) in
+          (match ws with
+           | _ :: ctl :: _ when String.length ctl > 2 && String.sub ctl 0 2 = "@x" ->
+               z_of_int (try int_of_string (String.sub ctl 2 (String.length ctl - 2)) with _ -> 0)
+           | _ -> z_of_int 0) in
+        let w0 = { s_eoe = false; s_funcs = []; s_log = [] } in
+        let (w, st) = run_script ext file_text (nat_of_int 12) (nat_of_int 40) w0 (str_of_field main) in
+        let show l = match List.filter (fun x -> x <> "") (String.split_on_char ' ' (string_of_str l)) with
+          | _ :: rest -> String.concat "," rest | [] -> "" in
+        print_endline ("trace=[" ^ String.concat ";" (List.map show w.s_log) ^ "] status=" ^ string_of_int (int_of_z st))
     | _ -> print_endline "?bad-case") Sys.argv.(1)
